@@ -82,9 +82,12 @@ pub fn run(ctx: &Ctx) -> Report {
         let tail_len = rng.below(60) as usize;
         let tail = rng.bytes(tail_len);
         let hs = if layout41 {
-            if ssl_refusal {
+            if ssl_refusal && i % 2 == 0 {
                 // an SSLRequest is the 32-byte prefix only
                 wire::ssl_request(caps, 1 << 24, 0x21)
+            } else if ssl_refusal {
+                // a connector that sets the bit anyway and sends the whole response in clear
+                wire::handshake41(caps | CLIENT_SSL, 1 << 24, 0x21, &user, &tail)
             } else {
                 wire::handshake41(caps, rng.next() as u32, rng.below(256) as u8, &user, &tail)
             }
